@@ -92,6 +92,13 @@ pub fn run_one(seed: u64, profile: Profile, thorough: bool, mk: MkMonitors, stop
                 }
             }
             if o.ok {
+                if let sim::HEvent::Tx { tx, .. } = &ev {
+                    for i in &tx.ixs {
+                        if let Some(c) = crate::wpix::decode(i) {
+                            res.cov.probe(&format!("landed_ok: {}", c.name()));
+                        }
+                    }
+                }
                 if let sim::HEvent::Tx { tx, tag, .. } = &ev {
                     if tag.contains("saturate_tick_array") {
                         res.cov.probe("saturating_lp_transactions_landed");
